@@ -23,6 +23,7 @@ RULE = (
     "C07 consistency. non-trivial = saved graph has a freed slot in the middle, a cycle, fan-in >= 3, or a mixed present/absent SLnK file"
     ' Also (added while the seeded-change rounds of DESIGN section 9 ran): Also: big projects and wide fan-outs as in C07, files written as older versions, and at the end of every history the same file with the sections of unlinked modules emptied (empty positions).'
 )
+RULE += " Rounds 12-14 of DESIGN section 9 added: a fixed set of link histories (freed slots before live links) gives the same tables in 12 differently started interpreters."
 ASSUMPTIONS = [
     "slot positions are claimed only when the file carries SLnK as the library wrote it; with SLnK removed only graph + consistency are claimed",
     "vlib.chunktools edits (dropping SLnK chunks, appending a -1 terminator) produce files the format documentation allows",
